@@ -384,6 +384,8 @@ class TestCase(unittest.TestCase):
         self.__exception_handlers.append(handler)
 
     def _add_reason(self, reason):
+        if not isinstance(reason, str):
+            reason = str(reason)
         self.addDetail("reason", content.text_content(reason))
 
     def assertEqual(self, expected, observed, message=""):
